@@ -123,6 +123,10 @@ Definition with_mode (m : meta) (mode : N) : meta :=
   {| m_mode := N.lor (N.ldiff (m_mode m) FILE_MODE_MASK) (N.land mode FILE_MODE_MASK);
      m_uid := m_uid m; m_gid := m_gid m |}.
 
+(* setMode: a user who is not a member of the node's group cannot set the set-group-ID bit (chmod(2)) *)
+Definition chmod_mode (m : meta) (u : user) (mode : N) : N :=
+  if negb (us_admin u) && negb (Z.eqb (m_gid m) (us_gid u)) then N.ldiff mode MODE_SETGID else mode.
+
 Definition with_owner (m : meta) (uid gid : Z) : meta :=
   {| m_mode := m_mode m;
      m_uid := if Z.eqb uid (-1) then m_uid m else uid;
@@ -140,7 +144,7 @@ Inductive slmode := SlLstat | SlStat | SlEval.
 Definition slmode_eqb (a b : slmode) : bool :=
   match a, b with SlLstat, SlLstat | SlStat, SlStat | SlEval, SlEval => true | _, _ => false end.
 
-Definition slCountMax : nat := 64.
+Definition slCountMax : nat := 40.
 
 Record sres := {
   sr_parent : option nat;     (* nil only when a Windows volume does not exist *)
@@ -187,8 +191,8 @@ Fixpoint search_loop (fuel : nat) (h : heap) (v : view) (slm : slmode) (vol pare
             | Some (NFile _ _ _ _) => if last then ret EFileExists else ret ENotADirectory
             | Some (NSym link _) =>
                 let slcount' := S slcount in
-                if Nat.ltb slCountMax slcount' then ret ETooManySymlinks
-                else if last && slmode_eqb slm SlLstat then ret EFileExists
+                if last && slmode_eqb slm SlLstat then ret EFileExists
+                else if Nat.ltb slCountMax slcount' then ret ETooManySymlinks
                 else
                   let saved' := match saved with
                                 | None => if last && slmode_eqb slm SlStat then Some pi1 else None
@@ -401,6 +405,7 @@ Definition mkdir_all (s : fsys) (v : view) (path : str) (perm : N) : fsys * res 
 (* OpenFile, memfs.go:515.  Returns the new node state and, on success, the handle fields. *)
 Definition open_file (s : fsys) (v : view) (view_ix : nat) (name : str) (flag perm : N)
   : fsys * (res + handle) :=
+  match name with [] => (s, inl (RFail ENoSuchFile)) | _ =>
   let om := to_open_mode flag in
   let r := search_node s v name (if has om OpenCreateExcl then SlLstat else SlEval) in
   let e := sr_err r in
@@ -449,7 +454,8 @@ Definition open_file (s : fsys) (v : view) (view_ix : nat) (name : str) (flag pe
     else match sr_child r with
          | Some c => open_existing c
          | None => (s, inl RPanic)
-         end.
+         end
+  end.
 
 (* Remove, memfs.go:654 *)
 Definition remove (s : fsys) (v : view) (name : str) : fsys * res :=
@@ -645,7 +651,7 @@ Definition chmod (s : fsys) (v : view) (name : str) (mode : N) : fsys * res :=
            | Some (NSym _ _) | None => (s, RFail EOpNotPermitted)
            | Some n =>
                if set_mode_ok (node_meta n) (v_user v)
-               then (with_heap s (upd (f_heap s) c (set_meta n (with_mode (node_meta n) mode))), ROk)
+               then (with_heap s (upd (f_heap s) c (set_meta n (with_mode (node_meta n) (chmod_mode (node_meta n) (v_user v) mode)))), ROk)
                else (s, RFail EOpNotPermitted)
            end
   end.
